@@ -3,7 +3,9 @@
 //!   kinds: 0 none | 1 missing directory | 2 path is a directory | 3 unwritable directory (uid dropped)
 //!          4 /dev/full | 5 file-size limit of <k> bytes (short write, then EFBIG) | 6 existing
 //!          unwritable file (uid dropped) | 7 name too long | 8 no file descriptors left | 9 symlink loop
-//!          10 empty path | 11 existing longer file (must be truncated)
+//!          10 empty path | 11 existing longer file (must be truncated) | 12 existing file of the same length that
+//!          differs only in its last 16 bytes | 13 … only in its first 16 bytes | 14 existing shorter file (a prefix) |
+//!          15 existing identical file
 use crate::common::*;
 use fast_qr::convert::image::ImageBuilder;
 use fast_qr::convert::svg::SvgBuilder;
@@ -11,7 +13,8 @@ use fast_qr::convert::Builder;
 use std::io::Write;
 
 fn symbol() -> fast_qr::QRCode {
-    match build(b"https://example.com/fault", Opts { ecl: Some(1), mode: None, version: None, mask: Some(2) }) {
+    // long enough for every rendering to exceed 16 KiB (buffer-sized shortcuts in file handling show only then)
+    match build(b"BEGIN:VCARD\nVERSION:3.0\nN:Doe;John;;;\nFN:John Doe\nORG:Example Org\nTEL;TYPE=CELL:+33123456789\nEMAIL:john.doe@example.com\nURL:https://example.com/fault\nEND:VCARD", Opts { ecl: Some(1), mode: None, version: None, mask: Some(2) }) {
         Outcome::Ok(q) => *q,
         _ => panic!("symbol"),
     }
@@ -127,6 +130,18 @@ pub fn file_line(kind: usize, k: usize, renderer: &str, size: usize) -> String {
             old.extend_from_slice(&vec![b'#'; 1000]);
             std::fs::write(&path, old).unwrap();
         }
+        12 | 13 => {
+            let mut old = expected.clone();
+            let n = old.len();
+            for (i, b) in old.iter_mut().enumerate() {
+                if (kind == 12 && i + 16 >= n) || (kind == 13 && i < 16) {
+                    *b = b'#';
+                }
+            }
+            std::fs::write(&path, old).unwrap();
+        }
+        14 => std::fs::write(&path, &expected[..expected.len() / 2]).unwrap(),
+        15 => std::fs::write(&path, &expected).unwrap(),
         _ => {}
     }
     let exe = std::env::current_exe().unwrap();
@@ -161,7 +176,7 @@ pub fn file_line(kind: usize, k: usize, renderer: &str, size: usize) -> String {
 pub fn gen(out: &mut crate::gen::Out, rng: &mut crate::rng::Rng, thorough: bool) {
     for renderer in ["svg", "png", "svgu"] {
         for size in if thorough { vec![0usize, 4, 11] } else { vec![4usize] } {
-            for kind in [0usize, 1, 2, 3, 4, 6, 7, 8, 9, 10, 11] {
+            for kind in [0usize, 1, 2, 3, 4, 6, 7, 8, 9, 10, 11, 12, 13, 14, 15] {
                 out.job(move || file_line(kind, 0, renderer, size));
             }
             let len = rendering(renderer, size).len();
